@@ -305,20 +305,70 @@ func reachAvoid2(from, target *ssa.BasicBlock, guard EdgePred, cut map[*ssa.Basi
 	if from == target {
 		return true, []*ssa.BasicBlock{from}
 	}
+	start := walkNode{b: from}
+	prev := map[walkNode]walkNode{start: {}}
+	queue := []walkNode{start}
+	pathTo := func(n walkNode) []*ssa.BasicBlock {
+		var path []*ssa.BasicBlock
+		for x := n; x.b != nil; x = prev[x] {
+			path = append([]*ssa.BasicBlock{x.b}, path...)
+		}
+		return path
+	}
+	for len(queue) > 0 {
+		if len(prev) > walkBudget {
+			return reachPlain(from, target, guard, cut) // too many path states: fall back to the plain CFG walk
+		}
+		n := queue[0]
+		queue = queue[1:]
+		b := n.b
+		if cut[b] {
+			continue
+		}
+		var iff *ssa.If
+		if k := len(b.Instrs); k > 0 {
+			iff, _ = b.Instrs[k-1].(*ssa.If)
+		}
+		for i, s := range b.Succs {
+			if iff != nil && guard != nil && guard(n.effectiveIf(iff), i) {
+				continue
+			}
+			if !n.feasibleEdge(i) {
+				continue
+			}
+			nn := n.step(i)
+			if _, seen := prev[nn]; seen {
+				continue
+			}
+			prev[nn] = n
+			if s == target {
+				return true, pathTo(nn)
+			}
+			queue = append(queue, nn)
+		}
+	}
+	return false, nil
+}
+
+// walkBudget bounds the number of (block, path facts) states one query may visit.
+const walkBudget = 40000
+
+// reachPlain: reachability on the bare CFG (no path facts), the conservative fallback.
+func reachPlain(from, target *ssa.BasicBlock, guard EdgePred, cut map[*ssa.BasicBlock]bool) (bool, []*ssa.BasicBlock) {
+	if from == target {
+		return true, []*ssa.BasicBlock{from}
+	}
 	prev := map[*ssa.BasicBlock]*ssa.BasicBlock{from: nil}
 	queue := []*ssa.BasicBlock{from}
 	for len(queue) > 0 {
 		b := queue[0]
 		queue = queue[1:]
-		if cut[b] && b != from {
-			continue
-		}
-		if cut[b] && b == from {
+		if cut[b] {
 			continue
 		}
 		var iff *ssa.If
-		if n := len(b.Instrs); n > 0 {
-			iff, _ = b.Instrs[n-1].(*ssa.If)
+		if k := len(b.Instrs); k > 0 {
+			iff, _ = b.Instrs[k-1].(*ssa.If)
 		}
 		for i, s := range b.Succs {
 			if iff != nil && guard != nil && guard(iff, i) {
@@ -391,36 +441,38 @@ func alwaysFollowedBy(a ssa.Instruction, events []ssa.Instruction, sameIteration
 	if isExitBlock(ab) && (okExit == nil || !okExit(ab)) {
 		return false, pathWitness(fn, []*ssa.BasicBlock{ab})
 	}
-	prev := map[*ssa.BasicBlock]*ssa.BasicBlock{}
-	var queue []*ssa.BasicBlock
-	push := func(s, from *ssa.BasicBlock) {
+	prev := map[walkNode]walkNode{}
+	var queue []walkNode
+	push := func(s walkNode, from walkNode) {
 		if _, seen := prev[s]; seen {
 			return
 		}
 		prev[s] = from
 		queue = append(queue, s)
 	}
-	bad := func(s *ssa.BasicBlock) ([]string, bool) {
+	bad := func(n walkNode) ([]string, bool) {
 		var path []*ssa.BasicBlock
-		for x := s; x != nil; x = prev[x] {
-			path = append([]*ssa.BasicBlock{x}, path...)
-			if x == ab {
+		for x := n; x.b != nil; x = prev[x] {
+			path = append([]*ssa.BasicBlock{x.b}, path...)
+			if x.b == ab {
 				break
 			}
 		}
 		return pathWitness(fn, path), true
 	}
-	prev[ab] = nil
+	startN := walkNode{b: ab}
+	prev[startN] = walkNode{}
 	for _, s := range ab.Succs {
 		if sameIteration && s.Dominates(ab) {
-			w, _ := bad(ab)
+			w, _ := bad(startN)
 			return false, append(w, "loops back without the required event")
 		}
-		push(s, ab)
+		push(mkNode(ab, s), startN)
 	}
 	for len(queue) > 0 {
-		b := queue[0]
+		n := queue[0]
 		queue = queue[1:]
+		b := n.b
 		if len(evBlocks[b]) > 0 {
 			continue
 		}
@@ -428,18 +480,21 @@ func alwaysFollowedBy(a ssa.Instruction, events []ssa.Instruction, sameIteration
 			if okExit != nil && okExit(b) {
 				continue
 			}
-			w, _ := bad(b)
+			w, _ := bad(n)
 			return false, w
 		}
-		for _, s := range b.Succs {
+		for i, s := range b.Succs {
+			if !n.feasibleEdge(i) {
+				continue
+			}
 			if sameIteration && s != ab && s.Dominates(ab) {
-				w, _ := bad(b)
+				w, _ := bad(n)
 				return false, append(w, "loops back without the required event")
 			}
 			if s == ab {
 				continue
 			}
-			push(s, b)
+			push(n.step(i), n)
 		}
 	}
 	return true, nil
